@@ -19,9 +19,9 @@ TWINS = {
 }
 
 
-def K(id, props, module, harness, level="proof", bound="", tier="quick", functions=(), desc="", timeout=None, needs_fmt_stub=False):
+def K(id, props, module, harness, level="proof", bound="", tier="quick", functions=(), desc="", timeout=None, needs_fmt_stub=False, termination=False):
     o = dict(id=id, props=list(props), backend="kani", module=module, harness=harness, level=level, bound=bound, tier=tier,
-             functions=list(functions), desc=desc, needs_fmt_stub=needs_fmt_stub)
+             functions=list(functions), desc=desc, needs_fmt_stub=needs_fmt_stub, termination=termination)
     if timeout:
         o["timeout"] = timeout
     OBLIGATIONS.append(o)
@@ -216,6 +216,14 @@ K("O07.4", ["C07"], "parser", "c07_skip_optional", functions=["Parser::skip_opti
 K("O07.4w", ["C07", "C08"], "lexer", "c07_is_whitespace", functions=["is_whitespace"], desc="is_whitespace is exactly the documented set, for every char")
 
 # ---------------------------------------------------------------------------------------------
+# C05 totality: every obligation above tagged C05 includes panic-freedom (Kani checks every unwrap, index,
+# overflow, unimplemented!, debug_assert; Verus checks every overflow / index / unwrap precondition, and
+# panic! sites become `requires false` calls) and termination (Kani unwinding assertions; Verus decreases)
+# ---------------------------------------------------------------------------------------------
+K("O05.2a", ["C05"], "parser", "c05_function_params_progress", needs_fmt_stub=True, termination=True, functions=["Parser::parse_function_expr"],
+  desc="modular (advance feeds tokens from a ghost queue): for every 2-token continuation of `functie (` the parameter loop consumes a token per iteration or fails with a SyntaxError; never spins")
+
+# ---------------------------------------------------------------------------------------------
 # per-property information for the evidence files
 # ---------------------------------------------------------------------------------------------
 NOT_APPLICABLE = {
@@ -225,6 +233,14 @@ NOT_APPLICABLE = {
 }
 
 PROPERTIES = {
+    "C05": {
+        "level": "proof",
+        "claim": "PARTIAL, per function: every function / match arm under contract in this framework (operators, conversions, index functions, all 45 machine arms, call/return, the compiler arms and helpers listed in the evidence) is proved free of panics, arithmetic overflow, out-of-bounds access and non-termination under its stated precondition - Kani checks every unwrap / index / overflow / unimplemented! / debug_assert on the real code, Verus every overflow / index / unwrap precondition on the extracted text with panic! sites turned into `requires false` calls. The defects this exposed (13 panics / hangs on ordinary inputs) are repaired (known-findings.txt).",
+        "note": "NOT decided: totality of VM::run and compile_ast as whole loops (composition of the arm contracts), of the tokenizer and of the parser functions not under contract (if / call / array / block loops), the REPL's unwrap()s in src/bin. A panic in code outside the listed functions is not detected.",
+        "design_ref": "DESIGN.md 3.10",
+        "undecided": ["Tokenizer, parser functions not under contract, Context (symbols.rs), std formatting/parsing paths of the builtins", "whole-loop totality of VM::run / compile_ast (composition)", "src/bin/nederlang.rs"],
+        "assumptions": ["arm preconditions (compile-side half of C02)"],
+    },
     "C07": {
         "level": "proof",
         "claim": "PARTIAL. Proved on the real parser functions for ALL tokens and binding powers (Kani, loop-free, callees replaced by recorders = modular): the precedence table and its ordering, the token->operator table, that an infix node's right operand is parsed at exactly the operator's own precedence while the Pratt loop continues only on STRICTLY higher precedence (so equal levels associate left), the op-assign desugaring, skip_optional, and the whitespace set. NOT decided: that parse(print(tree)) == tree for all trees, comments / layout in the tokenizer, `anders als` nesting, call/index argument loops.",
